@@ -111,3 +111,25 @@ package main
 //@   ensures [exact-sum] ret == nil ==> math(result) == math(current) + math(delta)
 //@   exit [overflow-only-when-sum-does-not-fit] ret == errOverflow ==> math(current) + math(delta) > 9223372036854775807 || math(current) + math(delta) < -9223372036854775808
 //@   exit [sum-that-does-not-fit-is-refused] (math(current) + math(delta) > 9223372036854775807 || math(current) + math(delta) < -9223372036854775808) ==> ret != nil
+
+// The integer syntax itself is the library's (strconv.ParseInt is a trusted leaf). What
+// the gateway owes C29 is WHICH text it hands to the parser: the stored value, byte for
+// byte - a value with leading or trailing white space is not an integer in the reference
+// model, so it must reach the parser (and be refused by it) unchanged, not trimmed.
+//@ ghost var parseCalls Int
+//@ ghost var lastParsedText ByteSeq
+//@ ghost var lastParsedBase int
+//@ func strconv::ParseInt
+//@   trusted
+//@   ghost parseCalls = parseCalls + 1
+//@   ghost lastParsedText = bs(s)
+//@   ghost lastParsedBase = base
+//@   modifies nothing
+//@ func bytes::TrimSpace
+//@   trusted
+//@   modifies nothing
+//@ func strconvParseIntSafe
+//@   property C29
+//@   ensures [parses-the-stored-bytes-verbatim] parseCalls > old(parseCalls) ==> lastParsedText == bs(data) && lastParsedBase == 10
+//@   ensures [at-most-one-parse] parseCalls <= old(parseCalls) + 1
+//@   ensures [non-zero-only-from-the-parser] parseCalls == old(parseCalls) ==> result == 0 && result1 == nil
